@@ -942,7 +942,7 @@ class CompressedBlockColumn(Column):
             i = self._find_block(docnum)
             if i is None:
                 return emptybytes
-            return self._get_block(i)[docnum]
+            return self._get_block(i).get(docnum, emptybytes)
 
         def __iter__(self):
             last = -1
